@@ -108,7 +108,10 @@ ASSUMPTIONS = [
 RULE = ("corpus, then an exhaustive table: every JSON type under the tag key (absent, null, booleans, ints, floats incl. "
         "-0.0/NaN/inf, lists, dicts, empty string) and every (module, attribute) of a table of real importable names "
         "(modules, functions, type variables, constants, instances, non-serialisable classes, serialisable classes of "
-        "subclass depth 1..5, registered types, an alias, a module whose import raises ImportError, missing modules and "
+        "subclass depth 1..5, registered types, an alias, never-registered classes that share __module__ + '.' + __name__ with a "
+        "registered / serialisable class — the pure-Python twin of a registered C type, nested classes re-exported at module level, "
+        "type(name, …) classes under another attribute, a subclass carrying its registered base's name, re-exports from another "
+        "module —, a module whose import raises ImportError, missing modules and "
         "attributes) with 11 textual variants each (leading/trailing/double dots, case, spaces, extra component); then "
         "random strings over dots/identifiers/unicode and random documents with corrupted tags at any depth; "
         "non-trivial = a non-empty string tag with a dot, or a non-string truthy tag, or a document with >= 2 tags; "
@@ -248,6 +251,7 @@ TABLE: List[Tuple[str, List[str]]] = [
                                                  "T_VAR", "a_function", "Alias", "Z", "json", "EXT", "KEY", "Fraction", "Case",
                                                  "node", "NODE"]),
     ("props", ["c18", "c19", "nope"]),
+    ("decimal", ["Decimal", "Context", "getcontext"]),
     ("asyncio.windows_events", ["X", "ProactorEventLoop"]),  # the module raises ImportError("win32 only") when imported
     ("krrood.nonexistent", ["X"]),
     ("non.existent", ["Class"]),
@@ -255,6 +259,20 @@ TABLE: List[Tuple[str, List[str]]] = [
     ("os.path.join", ["x"]),  # 'os.path' is not a package
     ("nonexistent_module_kv", ["X"]),
 ]
+
+
+# never-registered classes that share module + "." + name with a registered one, under the attribute they are reachable as
+_twin_table: dict = {}
+for _m, _a, _t, _of in Z.TWINS:
+    _twin_table.setdefault(_m, []).append(_a)
+for _m, _as in _twin_table.items():
+    for _i, (_tm, _tas) in enumerate(TABLE):
+        if _tm == _m:
+            TABLE[_i] = (_tm, _tas + [a for a in _as if a not in _tas])
+            break
+    else:
+        TABLE.append((_m, _as))
+TWIN_TAGS = [f"{m}.{a}" for m, a, _t, _of in Z.TWINS]
 
 
 def variants(tag: str) -> List[str]:
@@ -308,7 +326,7 @@ def gen_tag(rng):
 
 
 NEAR_MISS_TAGS = [c.__module__ + "." + c.__name__ for c in Z.UNREGISTERED_SUBCLASSES + Z.ABSTRACT_SERIALIZERS] + \
-    ["krrood.adapters.json_serializer.SubclassJSONSerializer", M18 + ".ConcreteOfAbstract", M18 + ".RegisteredNode"]
+    ["krrood.adapters.json_serializer.SubclassJSONSerializer", M18 + ".ConcreteOfAbstract", M18 + ".RegisteredNode"] + TWIN_TAGS
 DOC_STRS = ["", "a", "Rex", "os.path", "12.50", "x y"]
 DOC_CLASSES = Z.GENERIC
 MONEY_TAGS = [c.__module__ + "." + c.__name__ for c in Z.EXT_MONEY]
